@@ -7,6 +7,7 @@ cost are recomputed from the ledger with plain numpy; with control variates the 
 regression on the ledger samples.
 """
 import hashlib
+import json
 
 import numpy as np
 
@@ -31,7 +32,7 @@ TIERS = {
     "quick": {"worlds": 1000, "wall": 520, "shrink_budget": 60,
               "required_probes": ["c05.run_completed", "c05.level_added_late", "c05.multi_pass", "c05.with_controls",
                                   "c05.pool_run", "c05.fixed_variant", "c05.real_coupling_run"]},
-    "thorough": {"worlds": 30000, "wall": 3300, "shrink_budget": 150,
+    "thorough": {"worlds": 20000, "wall": 2900, "shrink_budget": 150,
                  "required_probes": ["c05.run_completed", "c05.level_added_late", "c05.multi_pass", "c05.with_controls",
                                      "c05.pool_run", "c05.fixed_variant", "c05.pass_with_idle_level"]},
 }
@@ -202,7 +203,7 @@ def check_snapshot(sc, ledger, snap, V, where):
     # results recomputed from the ledger (raw arrays)
     res = snap.get("results")
     if res is not None:
-        exp = {"ml": [], "vl": [], "mean_level_l": [], "var_level_l": [], "cl": []}
+        exp = {"ml": [], "vl": [], "mean_level_l": [], "var_level_l": [], "cl": [], "kurtosis": [], "kurt_scale": []}
         ok_levels = True
         for lvl in range(len(snap["Nl"])):
             rf, rc = M.level_reference(sc, led, lvl)
@@ -216,6 +217,10 @@ def check_snapshot(sc, ledger, snap, V, where):
             exp["vl"].append(max(0.0, d.var()))
             exp["mean_level_l"].append(rf.mean())
             exp["var_level_l"].append(rf.var())
+            # kurtosis figure of the library: fourth central moment of the corrections over max(1, variance)^2
+            den = max(1.0, d.var()) ** 2
+            exp["kurtosis"].append(float(np.mean((d - d.mean()) ** 4)) / den)
+            exp["kurt_scale"].append(float(np.max(np.abs(d)) ** 4) / den if d.size else 0.0)
         if ok_levels and not sc["controls"]:
             for k in ("ml", "vl", "mean_level_l", "var_level_l"):
                 got = np.array(res[k], dtype=float)
@@ -224,6 +229,13 @@ def check_snapshot(sc, ledger, snap, V, where):
                 if got.shape != e.shape or not np.allclose(got, e, rtol=1e-8, atol=1e-9 * scale * (scale if k.startswith("v") else 1.0)):
                     V.append({"sig": f"C05.results|{k} is not the statistic of the simulated samples|{cls}", "oracle": "results",
                               "detail": {"at": where, "got": got.tolist()[:6], "expected": e.tolist()[:6]}})
+        if ok_levels and not sc["controls"] and "kurtosis" in res:
+            got = np.array(res["kurtosis"], dtype=float)
+            e = np.array(exp["kurtosis"], dtype=float)
+            tol = 1e-7 * (1.0 + np.array(exp["kurt_scale"], dtype=float))  # the library expands the central moment: cancellation
+            if got.shape != e.shape or np.any(np.abs(got - e) > tol + 1e-6 * np.abs(e)):
+                V.append({"sig": f"C05.results|kurtosis is not the statistic of the simulated samples|{cls}", "oracle": "results",
+                          "detail": {"at": where, "got": got.tolist()[:6], "expected": e.tolist()[:6]}})
         # cost per level = accumulated cost / N_l ; total cost = sum
         sum_cost = np.array(snap["sum_cost"], dtype=float)
         cnt = np.array([sum(1 for e_ in led if e_["level"] == lvl) for lvl in range(len(snap["Nl"]))], dtype=float)
@@ -281,9 +293,16 @@ def execute(wd, sc):
                 f_, c_ = None, None
             final["levels"].append((f_, c_))
         try:
-            final["results"] = {k: np.array(getattr(res, k), dtype=float).tolist() for k in
-                                ("ml", "vl", "cl", "mean_level_l", "var_level_l", "kurtosis")}
+            final["results"] = M.read_results(res, sc.get("read_order"))
+            if sc.get("read_order") and list(sc["read_order"]) != list(M.RESULT_FIELDS):
+                wd.probes["c05.results_read_in_another_order"] += 1
             final["results"]["cost"] = float(res.cost)
+            # reading the figures again, in the reverse order, gives the same figures (reads are pure)
+            again = M.read_results(res, list(reversed(sc.get("read_order") or M.RESULT_FIELDS)))
+            first = {k_: final["results"][k_] for k_ in again}
+            if json.dumps(first, sort_keys=True) != json.dumps(again, sort_keys=True):
+                V.append({"sig": f"C05.results|reading the returned figures twice gives different values|{cls}", "oracle": "results",
+                          "detail": {"differs": [k_ for k_ in again if json.dumps(first[k_]) != json.dumps(again[k_])]}})
         except Exception as e:
             errors.append({"kind": type(e).__name__, "msg": "reading the returned results: " + str(e)[:120]})
         check_snapshot(sc, ledger, final, V, where="returned results")
